@@ -182,6 +182,7 @@ fn sender(spec: &CaseSpec, out: &Outcome, a: &mut Analysis) {
     let mut consecutive_fail: u32 = 0;
     let mut consecutive_timeouts: u32 = 0;
     let mut handshake_pending = spec.check_response;
+    let mut handshake_failed = false;
     let mut last_data_sig: Option<(u16, usize, u64)> = None;
 
     for (i, ev) in log.iter().enumerate() {
@@ -317,6 +318,9 @@ fn sender(spec: &CaseSpec, out: &Outcome, a: &mut Analysis) {
                     }
                     _ => {
                         shape_push(&mut a.shape, 15);
+                        if handshake_pending {
+                            handshake_failed = true;
+                        }
                         handshake_pending = false;
                         consecutive_fail += 1;
                         a.class("stray-non-ack");
@@ -329,6 +333,9 @@ fn sender(spec: &CaseSpec, out: &Outcome, a: &mut Analysis) {
                 bu.prev_recv_new_ack = None;
                 pending_stale = None;
                 last_data_sig = None;
+                if handshake_pending {
+                    handshake_failed = true;
+                }
                 handshake_pending = false;
                 shape_push(&mut a.shape, if matches!(ev, Ev::RecvTimeout { .. }) { 20 } else { 21 });
                 consecutive_fail += 1;
@@ -358,6 +365,16 @@ fn sender(spec: &CaseSpec, out: &Outcome, a: &mut Analysis) {
         a.hit("AFTER_FINAL");
     }
     a.completed = final_acked.is_some() && out.end == EndHow::Joined;
+    // a sender that stops although nothing failed (no ERROR, no run of 6 failed receives at the end) and the final
+    // block was never sent has dropped the end of the transfer
+    if out.end == EndHow::Joined && final_acked.is_none() && got_error.is_none() && max_sent < n && !handshake_failed {
+        // failed receive attempts since the last progress (stale ACKs in between do not reset the worker's count)
+        let tail_failures = consecutive_fail as usize;
+        a.hit("ENDED_EARLY");
+        if tail_failures < 6 && !log.is_empty() {
+            a.fail("ENDED_EARLY", log.len(), format!("the worker ended after sending blocks up to {} of {} although no ERROR arrived and only {} receive attempt(s) failed at the end: the final block was never emitted", max_sent, n, tail_failures));
+        }
+    }
 
     // end-to-end: an in-order reassembling client holds a byte-identical copy or no completed copy
     if let Some(bytes) = &out.peer_bytes {
@@ -540,8 +557,11 @@ fn receiver(spec: &CaseSpec, out: &Outcome, a: &mut Analysis) {
         // the client has given up but the worker neither ended nor cleaned up within the simulation budget
         a.hit("CLEANUP");
         a.fail("CLEANUP", log.len(), format!("upload failed (client {:?}) but the worker never ended, so the partial file was not removed", out.peer));
-    } else if out.end == EndHow::Joined {
+    } else if out.end == EndHow::Joined || out.end == EndHow::Panicked {
         a.hit("CLEANUP");
+        if out.end == EndHow::Panicked {
+            a.class("upload-worker-panicked");
+        }
         a.class(if spec.clean { "failed-upload-clean" } else { "failed-upload-keep" });
         match (&out.file_after, spec.clean) {
             (Some(f), true) => a.fail("CLEANUP", log.len(), format!("upload failed with clean-on-error in force but a {}-byte file remains", f.len())),
